@@ -169,6 +169,9 @@ def _vf2_feasible(
     # semantic feasibility of nodes
     if e1.get(None, '') != e2.get(None, ''):
         return False
+    # self loops are not seen by the consistency checks below
+    if e1.get(n) != e2.get(m):
+        return False
     # accounts for r_in, r_out
     if len(e1) != len(e2):
         return False
